@@ -240,6 +240,21 @@ fn explore(ctx: &Ctx) -> Outcome {
             }
         }
     }
+    // each SINGLE call of the odd-call series (props::poison) immediately before an extraction
+    {
+        let files = files_of(&[2, 0, 4]);
+        for i in 0..props::poison::count() {
+            for padded in [true, false] {
+                let l = ArcLayout { padded, tables_first: false, record_order: vec![2, 0, 1], body_order: vec![0, 1, 2], info_before_count: false };
+                props::poison::single_call(i);
+                total.cases += 1;
+                total.nontrivial += 1;
+                if let Some((sig, summary)) = judge_ok(&files, &l, &mut total) {
+                    total.violate(format!("after-single-call:{}", sig), format!("right after call #{} of the odd-call series: {}", i, summary), json!({"after_single_call": i, "padded": padded}));
+                }
+            }
+        }
+    }
     // conforming variations
     {
         let vc = variation_cases(ctx.tier);
@@ -279,6 +294,14 @@ fn explore(ctx: &Ctx) -> Outcome {
 }
 
 fn replay(_ctx: &Ctx, case: &Value) -> Vec<Violation> {
+    if let Some(i) = case["after_single_call"].as_u64() {
+        let padded = case["padded"].as_bool().unwrap_or(true);
+        let files = files_of(&[2, 0, 4]);
+        let l = ArcLayout { padded, tables_first: false, record_order: vec![2, 0, 1], body_order: vec![0, 1, 2], info_before_count: false };
+        props::poison::single_call(i as usize);
+        let mut t = Tally::new();
+        return judge_ok(&files, &l, &mut t).map(|(sig, summary)| vec![Violation { sig: format!("after-single-call:{}", sig), summary, case: case.clone() }]).unwrap_or_default();
+    }
     if let Some(cut) = case["after_cut"].as_u64() {
         let padded = case["padded"].as_bool().unwrap_or(true);
         let files = files_of(&[2, 0, 4]);
